@@ -270,20 +270,23 @@ def retag(rng, scaffolds, mode):
     return out
 
 
-def random_multi_cli_case(rng, mode):
+def random_multi_cli_case(rng, mode, tag=None):
     """-> (FastaCase, Pretext AGP text) with at least two Pretext scaffolds"""
     for _ in range(20):
         case, _, scaffolds = G.random_cli_case(rng)
         if len(scaffolds) >= 2:
             break
     if mode == "split":
-        scaffolds = split_tagged(rng, case, scaffolds)
+        scaffolds = split_tagged(rng, case, scaffolds, tag or rng.choice(SPLIT_TAGS))
     else:
         scaffolds = retag(rng, scaffolds, mode)
     return case, G.pretext_agp(scaffolds, rng.choice((1.0, 1.0, 3.5)))
 
 
-def split_tagged(rng, case, scaffolds):
+SPLIT_TAGS = ("Contaminant", "FalseDuplicate", "Haplotig")
+
+
+def split_tagged(rng, case, scaffolds, tag):
     """
     one input record cut into two (or three) Pretext scaffolds that carry the same Haplotig / Contaminant /
     FalseDuplicate tag and different haplotype tags (unpainted); the other scaffolds as in mode haps.  The pieces
@@ -294,7 +297,6 @@ def split_tagged(rng, case, scaffolds):
     L = len(rec.seq)
     cuts = [c[0] - 1 for c in ctg[rec.name][1:]] or [L // 2]  # in front of a contig, else in the middle
     cuts = sorted(rng.sample(cuts, min(len(cuts), rng.choice((1, 1, 2)))))
-    tag = rng.choice(("Contaminant", "FalseDuplicate", "Contaminant", "Haplotig"))
     first_hap = rng.randrange(2)
     pieces = []
     for i, (a, b) in enumerate(zip([0, *cuts], [*cuts, L])):
@@ -321,6 +323,7 @@ def check_cli_multi(tmp, case, pretext_text):
     tmp = pathlib.Path(tmp)
     res = G.run_pretext_cli(tmp, case.data(), pretext_text, output="x.fa")
     msgs, nrec = judge_cli(res, case)
+    msgs.sort(key=lambda m: "record names are not unique" not in m)  # the plainest clause first
     if res["exception"] or res["exit_code"] != 0:
         return msgs, nrec, 0
     fastas = sorted(n for n in res["files"] if n.startswith("x.") and n.endswith(".fa"))
@@ -859,7 +862,7 @@ def run(tier, seed, **opts):
             if col.full:
                 break
             mode = TAG_MODES[k % len(TAG_MODES)]
-            case, ptxt = random_multi_cli_case(rng, mode)
+            case, ptxt = random_multi_cli_case(rng, mode, SPLIT_TAGS[(k // len(TAG_MODES)) % len(SPLIT_TAGS)])
             sub = d / f"multi{k}"
             sub.mkdir()
             try:
